@@ -210,8 +210,10 @@ func suiteRefactor(c *Ctx) error {
 					kind := pick(r, cosmeticKinds)
 					if nf, note := applyRewrite(r, cur, kind); nf != nil {
 						cur = nf
+						if strings.HasPrefix(note, "CONST-TEST") {
+							kind = "flip-of-constant-test"
+						}
 						applied = append(applied, kind)
-						_ = note
 					}
 				}
 				if len(applied) > 0 {
@@ -260,6 +262,9 @@ func suiteRefactor(c *Ctx) error {
 			}
 			if g.Fingerprint != b.Fingerprint {
 				cls := fmt.Sprintf("C02/fingerprint-changed:%s:%s", kind, fam)
+				if strings.Contains(kind, "flip-of-constant-test") {
+					cls = "C02/fingerprint-changed:flip-of-constant-test"
+				}
 				c.Violate("C02", cls, fmt.Sprintf("function %s (%s family): fingerprint changes under the cosmetic refactoring %q", short, fam, kind),
 					map[string]interface{}{"function": short, "refactoring": kind, "source": j.baseSrc, "variant_source": j.v.src, "ir_before": b.CanonicalIR, "ir_after": g.CanonicalIR})
 			}
